@@ -410,12 +410,17 @@ def knownKey (fs : List Field) : Val → Bool
   | .str s => fs.any fun f => f.name = s
   | _ => false
 
+/-- init Struct type, one member: a given value must be an instance of the attribute type, only an optional attribute
+    may be absent -/
+def attrCheck (ih : List (Val × Val)) (f : Field) : Bool :=
+  match lookupAttr f.name ih with
+  | some w => inst (typeOf f.ty) w
+  | none => f.isOpt
+
 /-- `px.New(T, initHash)` through the named-argument dispatch, then `ReflectTo` into a fresh struct: the field values in
     declaration order, `none` when the init hash is not an instance of the init Struct type -/
 def newNamed (r32 : Nat → Nat) (fs : List Field) (ih : List (Val × Val)) : Option (List GoVal) :=
-  if fs.all (fun f => match lookupAttr f.name ih with
-                      | some w => inst (typeOf f.ty) w
-                      | none => f.isOpt) && ih.all (fun kv => knownKey fs kv.1)
+  if fs.all (attrCheck ih) && ih.all (fun kv => knownKey fs kv.1)
   then mapOpt (fun f => reflectTo r32 f.ty ((lookupAttr f.name ih).getD .undef)) fs
   else none
 
